@@ -159,10 +159,17 @@ def run_k(framing, c, fill, trail, ka, host=None, T=1):
     return vio, res
 
 
-def run_repeat(framing, kind, ka):
+def run_repeat(framing, kind, ka, tx_start=None):
     """the same request several times on ONE protocol object, the inverter's registers unchanged: every one of the
-    byte-identical conforming answers must be accepted"""
-    world.reset()
+    byte-identical conforming answers must be accepted.  tx_start: (Modbus/TCP) the process has made that many
+    transmissions before - the transaction ids of the four requests lie around the 16-bit sign boundary / the wrap."""
+    world.reset(tx=tx_start)
+    if tx_start is not None and not hasattr(gp, '_modbus_tcp_tx'):
+        # the counter is not reachable as a module attribute: walk up to the start state by building frames
+        c0 = make_protocol('tcp', 1, 0, False).read_command(0, 1)
+        for _ in range(70000):
+            if int.from_bytes(c0.request_bytes()[:2], 'big') == tx_start:
+                break
     pl = bytes((i * 5 + 1) & 0xFF for i in range(12))
 
     def plan(k, req, now):
@@ -187,8 +194,9 @@ def run_repeat(framing, kind, ka):
         n0 = len(peer.sent)
         st, res = loop.run(_exec(cmd, p))
         if st == 'hang' or res[0] != 'ok' or len(peer.sent) - n0 != 1:
-            vio.append((f'identical-answer-accepted-again/{framing}/{kind}',
-                        f'request #{i + 1} (same as before, same answer): {res[:2]} after {len(peer.sent) - n0} transmissions'))
+            vio.append((f'identical-answer-accepted-again/{framing}/{kind}' + ('/after-a-long-history-of-transmissions' if tx_start is not None else ''),
+                        f'request #{i + 1} (same as before, same answer): {res[:2]} after {len(peer.sent) - n0} transmissions' +
+                        (f' (transaction id {peer.sent[-1][2][:2].hex()})' if tx_start is not None and peer.sent else '')))
             break
     return vio
 
@@ -429,6 +437,12 @@ def run(tier, seed, rep):
                 nk += 1
                 for key, cause in run_repeat(framing, kind, ka):
                     rep.add(key + f'/ka={int(ka)}', key.split('/')[0], dict(part='R', framing=framing, kind=kind, ka=ka), dict(cause=cause))
+    for kind in ('read', 'write', 'multi'):
+        for ka in (False, True):
+            for ts in (0x7FFD, 0x7FFE, 0x7FFF, 0x8000, 0xFFFB, 0xFFFC, 0xFFFD, 0xFFFE):      # (states the counter can be in: it wraps from 0xFFFE to 1)
+                nk += 1
+                for key, cause in run_repeat('tcp', kind, ka, ts):
+                    rep.add(key + f'/ka={int(ka)}', key.split('/')[0], dict(part='R', framing='tcp', kind=kind, ka=ka, tx_start=ts), dict(cause=cause))
     for framing in ('rtu', 'tcp'):
         for ca in (20, 61, 125):
             for cb in (1, 3, 10, 60, 100):
@@ -481,7 +495,7 @@ def replay(r):
     if r['part'] == 'L':
         return dict(violations=run_after_lost_remainder(r['framing'], r['ca'], r['cb'], r['ka']) or [])
     if r['part'] == 'R':
-        return dict(violations=run_repeat(r['framing'], r['kind'], r['ka']))
+        return dict(violations=run_repeat(r['framing'], r['kind'], r['ka'], r.get('tx_start')))
     if r['part'] == 'E':
         spec = r['spec']
         framing = r['framing']
